@@ -204,7 +204,7 @@ impl Backend for Bucket {
 const SEG_ALPHABETS: [&str; 6] = [
     "abcdefghijklmnopqrstuvwxyzABCDEFGHIJKLMNOPQRSTUVWXYZ0123456789_-.",
     "&<>\"' ",
-    "åßçđéñ雷達데이터🌩",
+    "åßçđéñ雷達데이터🌩\u{FFFD}\u{E000}\u{D7FF}\u{10FFFF}",
     "&amp;&lt;]]><!--",
     "%#?+=;:@!$*(),~\t ",
     "/",
@@ -254,11 +254,33 @@ fn draw_segment(tape: &mut Tape, for_download: bool, allow_slash: bool) -> Strin
         .filter(|p| !p.is_empty())
         .map(|p| if p == "." || p == ".." { "dot".to_string() } else { p })
         .collect();
-    if parts.is_empty() {
-        "x".to_string()
-    } else {
-        parts.join("/")
+    let mut name = if parts.is_empty() { "x".to_string() } else { parts.join("/") };
+    // suffixes and whole names the real buckets hold next to the volume files
+    if tape.draw(6) == 5 {
+        const SUFFIXES: [&str; 10] = [".tar", ".gz", "_MDM", ".Z", ".bz2", "_V06", "_V06.gz", ".tmp", ".md5", ".xml"];
+        if tape.draw(8) == 0 {
+            name = "NWS_NEXRAD_NXL2DPBL_KDMX_20100101000000_20100101235959.tar".to_string();
+        } else {
+            name.push_str(SUFFIXES[tape.draw(SUFFIXES.len() as u64) as usize]);
+        }
     }
+    name
+}
+
+/// Object content that looks like something else: an S3 error document, a listing page, HTML.
+/// Stored bytes are opaque; a 200 answer carrying them must come back unchanged.
+fn lookalike_payload(tape: &mut Tape) -> Vec<u8> {
+    let mut d: Vec<u8> = match tape.draw(4) {
+        0 => b"<?xml version=\"1.0\" encoding=\"UTF-8\"?>\n<Error><Code>NoSuchKey</Code><Message>The specified key does not exist.</Message><Key>x</Key><RequestId>0</RequestId></Error>".to_vec(),
+        1 => b"<?xml version=\"1.0\" encoding=\"UTF-8\"?><Error><Code>InternalError</Code></Error>".to_vec(),
+        2 => b"<?xml version=\"1.0\" encoding=\"UTF-8\"?><ListBucketResult xmlns=\"http://s3.amazonaws.com/doc/2006-03-01/\"><Name>b</Name><IsTruncated>true</IsTruncated></ListBucketResult>".to_vec(),
+        _ => b"<html><head><title>503 Service Unavailable</title></head><body><Error>slow down</Error></body></html>".to_vec(),
+    };
+    if tape.draw(2) == 1 {
+        let n = tape.draw(64) as usize;
+        d.extend(tape.bytes(n));
+    }
+    d
 }
 
 fn chunk_like_payload(tape: &mut Tape) -> Vec<u8> {
@@ -281,6 +303,9 @@ fn chunk_like_payload(tape: &mut Tape) -> Vec<u8> {
 }
 
 fn plain_payload(tape: &mut Tape) -> Vec<u8> {
+    if tape.draw(12) == 11 {
+        return lookalike_payload(tape);
+    }
     let n = match tape.weighted(&[5, 2, 1, 1]) {
         0 => tape.draw(600) as usize,
         1 => tape.draw(20_000) as usize,
